@@ -138,7 +138,7 @@ def execute(case: dict) -> dict:
                 data = await request.read()
                 return web.Response(text=f"r{i}:{len(data)}", headers=hdr)
             elif kind in ("stream", "stream_cl", "partial_raise", "partial_timeout"):
-                resp = web.StreamResponse(headers=hdr)
+                resp = web.StreamResponse(status=r.get("status", 200), headers=hdr)
                 if kind == "stream_cl":
                     resp.content_length = 6
                 await resp.prepare(request)
@@ -321,13 +321,18 @@ def execute(case: dict) -> dict:
                 raise Violation("response-order", f"response #{j} carries marker {mark!r}, expected request {who}; statuses {[x.status for x in finals]}")
             kind = reqs[who].get("h", "ret")
             exp = STATUS.get(kind, {200})
+            if kind in ("stream", "stream_cl"):
+                exp = {reqs[who].get("status", 200)}
             if r.status not in exp:
                 raise Violation(f"unexpected-status/{kind}", f"request {who} ({kind}) answered with {r.status}, expected {sorted(exp)}")
             if r.complete and kind in OK_KINDS and r.status == 200:
                 want = {"ret": f"r{who}", "yield": f"r{who}", "sleep": f"r{who}", "ignore_body": f"r{who}", "stream": "abcdef", "stream_cl": "abcdef"}.get(kind)
-                if want is not None and r.body != want.encode():
+                is_head = reqs[who].get("method") == "HEAD"
+                if is_head and r.body:
+                    raise Violation("head-response-with-body", f"request {who} (HEAD, {kind}): {len(r.body)} body bytes follow the header section")
+                if want is not None and not is_head and r.body != want.encode():
                     raise Violation("response-body", f"request {who} ({kind}): body {r.body[:40]!r}, expected {want!r}")
-                if kind == "read_body" and r.body != f"r{who}:{reqs[who].get('n', 0) if reqs[who].get('body', 'none') != 'none' else 0}".encode():
+                if kind == "read_body" and not is_head and r.body != f"r{who}:{reqs[who].get('n', 0) if reqs[who].get('body', 'none') != 'none' else 0}".encode():
                     raise Violation("request-body-length", f"request {who}: handler saw {r.body!r}")
         # unparsable input => 4xx and close (when every earlier request was answered normally with keep-alive)
         if bad_is_reject and disc is None:
@@ -401,6 +406,11 @@ def cases(draw, deep: bool = False, with_bad: bool = False):
         h = draw(st.sampled_from(HANDLERS if not deep else ["ret", "ret", "ret", "ret", "yield", "read_body", "ignore_body"]))
         bk = draw(st.sampled_from(["none", "none", "cl", "chunked"]))
         r = {"h": h, "body": bk, "n": draw(st.sampled_from([0, 1, 5, 70] + ([300, 300] if deep else []))) if bk != "none" else 0}
+        # the same handler serves HEAD (what add_get() registers) and may answer with a status that has no body:
+        # whatever it writes, the message on the wire ends with its header section
+        r["method"] = draw(st.sampled_from(["POST", "POST", "POST", "GET", "HEAD", "HEAD", "PUT"])) if not with_bad else "POST"
+        if h in ("stream", "stream_cl"):
+            r["status"] = draw(st.sampled_from([200, 200, 200, 204, 304]))
         if h == "yield":
             r["k"] = draw(st.integers(1, 4))
         if h == "sleep":
